@@ -86,7 +86,9 @@ class RuleCtx:
         return self
 
     def __exit__(self, et, ev, tb):
-        if et is None and self.instances < self.floor:
+        # a shortfall of instances only matters for a rule that would otherwise pass (vacuously); a rule that already
+        # reports undischarged obligations is not passing
+        if et is None and self.instances < self.floor and not self.findings:
             raise AnalysisError(
                 f'rule {self.rid} matched {self.instances} instance(s), below the floor {self.floor} confirmed by reading: {self.title}'
             )
